@@ -17,13 +17,13 @@ CLAIMS = {
         text="Proved in Lean: index.Time (incl. the sort.Search loop) returns the position of the first item at or after the time on every index with non-decreasing timestamps; getByTime_ok on every state with Inv and TimesInv; and unconditionally (lookups_ok_monoX, getByTime_ok_mono): after any history from an empty directory whose publish times never decrease, GetByTime/OffsetByTime return the first live message at or after the time, across segment boundaries with ties and with an empty head. A proved counterexample (cx_getByTime) shows that monotone live messages are not enough: the writer's time carry survives Delete, which is why the property quantifies over the publish history. Correspondence: monotone histories with runs of equal timestamps straddling segment boundaries, every microsecond from first-2 to last+2, GetByTimeOK on the implementation's results.",
         note=COMMON_NOTE + 'Hypothesis kept visible: times are >= 0 (index timestamps start from 0); negative times are the open known finding D12.'),
     'C02': dict(
-        text="Proved in Lean: publish_step / publish_offsets (on every state with Inv, for every batch incl. the empty one and across a rollover at any size, Publish returns next+n and appends exactly the batch stamped next..next+n-1 in order), next_monotone (no operation - delete of the tail or of everything, reopen with any options, index removal, migrate, recover - moves NextOffset backwards), never_reused (over any history an assigned offset is never assigned again), live_below_next. Correspondence: histories biased to 'delete the tail / delete everything -> reopen -> publish', PublishOK and NextOffsetOK evaluated on the implementation's results (incl. the offsets written back into the caller's slice).",
+        text="Proved in Lean: publish_step / publish_offsets (on every state with Inv, for every batch incl. the empty one and across a rollover at any size, Publish returns next+n and appends exactly the batch stamped next..next+n-1 in order), next_monotone (no operation - delete of the tail or of everything, reopen with any options, index removal, migrate, recover - moves NextOffset backwards), never_reused (over any history an assigned offset is never assigned again), live_below_next. Correspondence: histories biased to 'delete the tail / delete everything -> reopen -> publish', PublishOK and NextOffsetOK evaluated on the implementation's results (incl. the offsets written back into the caller's slice); batches at the edge of the 64 MiB body limit (accepted as a whole or leaving nothing behind); crash and power-loss images of publish / delete / reopen judged for what concerns offsets (NextOffset after recovery, the append after it).",
         note=COMMON_NOTE + ''),
     'C07': dict(
         text='Proved in Lean on the byte-level model: the record scan shared by Check/Recover returns exactly the valid records (at their positions) of any file = valid records ++ anything that does not parse as a record there; Check passes iff the log is clean and the index (if present) is the derived one (check_iff); Recover in closed form (recover_eq): it keeps exactly the valid prefix, removes / keeps / rewrites the index accordingly; Recover is a byte-for-byte no-op on everything Check accepts; after Recover Check passes and a second Recover changes nothing (check_after_recover, recover_idempotent); appending keeps Check passing; a tail shorter than a record header is always corruption; a cut record (both versions) never parses. Correspondence: real Segment.Check/Recover vs Seg.check/Seg.recover on the same bytes for every truncation length, every single-byte corruption position, zero/FF/random tails, every index damage, 4 index configurations, monotone and non-monotone times; plus Check-after-Recover and publish-then-Check through the API.',
         note=COMMON_NOTE + "V1: truncation only (V1's CRC does not cover the record header), as the property says. For arbitrary garbage tails 'does not parse as a record there' stays a hypothesis of recover_eq (discharged for empty tails, tails shorter than a header and cut records)."),
     'C13': dict(
-        text="Proved in Lean for all messages (any key/value bytes <= 64 MiB, any int64 offset/time), both versions: a record reads back identical from the position it was written at whatever surrounds it; Size(m) = bytes added; records are back to back at the model's positions; index items of the 4 layouts round-trip; the regenerated layout constants equal the documented ones (proof obligation by decide); Stat = number of segments / messages / exact bytes on every state reachable from a read-write open of an empty directory (stat_spec_reachable). Correspondence: bytes written by the real message/index writers = bytes of the Lean encoder, the Lean decoder reads what Go wrote, Go reads back through both reader kinds; Stat vs os.Stat vs the model in API histories.",
+        text="Proved in Lean for all messages (any key/value bytes <= 64 MiB, any int64 offset/time), both versions: a record reads back identical from the position it was written at whatever surrounds it; Size(m) = bytes added; records are back to back at the model's positions; index items of the 4 layouts round-trip; the regenerated layout constants equal the documented ones (proof obligation by decide); Stat = number of segments / messages / exact bytes on every state reachable from a read-write open of an empty directory (stat_spec_reachable). Correspondence: bytes written by the real message/index writers = bytes of the Lean encoder, the Lean decoder reads what Go wrote, Go reads back through both reader kinds; Stat vs os.Stat vs the model in API histories (also as the first call after a reopen with index files removed); Log.Size of published messages; the body limit at its edge in both formats.",
         note=COMMON_NOTE + ''),
     'C01': dict(
         text='The L0 state abs(l) is the content of the log. Proved in Lean: fidelity / fidelity_from_empty - every state reached from an empty directory (or from any state with Inv) by any sequence of publish / delete / consume / get / GC / close + reopen with any options, index removal, migrate and recover satisfies the invariant, and its content is the L0 list semantics of the history (published messages in order with their offsets, minus exactly what deletes reported, never anything else); publish appends exactly the stamped batch across rollover at any size; rollover and reads change no content; Consume shows a prefix of the content. Correspondence: full observation (scan from OffsetOldest to NextOffset, NextOffset, Stat, directory listing) after every step of generated histories with deletes, trims, compaction, GC, reopen with re-drawn options, index removal and migrate, compared with the L1 model exactly and with the L0 list semantics.',
@@ -60,7 +60,7 @@ CLAIMS = {
         note=COMMON_NOTE + "flock(2) between open file descriptions is the parameter of the model (trusted)."),
     'C20': dict(
         text="Proved in Lean: the backup of any reachable state is a clean directory with the same content and opens (any options) to a log "
-             "with the invariant and the same live messages and NextOffset; publish-only steps only extend the content. Correspondence: "
+             "with the invariant and the same live messages and NextOffset; publish-only steps only extend the content. Repeated backup (Klev/BackupInc.lean: per segment the log and index file are copied over the target's, an arbitrary oracle deciding for every existing target file of the same size whether it is skipped - the real rule, same size and modification time, skips in a subset of those cases): after any number of publishes with any rollovers a backup over the previous backup gives exactly the source's files whatever the oracle does (backup_repeat: while a log is only appended to, a file of the same size is the same file), hence a clean directory that opens to the same log (backup_repeat_opens_same); without 'only appended to' a stale same-size file survives (stale_file_survives, a proved counterexample: why the property restricts the repeated case). Correspondence: "
              "Backup through both entry points into fresh and reused directories with publish-only steps in between; real Check + open + "
              "full observation of the backup; source listing unchanged.",
         note=COMMON_NOTE + "The mtime half of the skip rule is runtime behaviour and not modelled (size-equal files are equal when only "
